@@ -52,6 +52,11 @@ static void run_case(long idx)
     int const nframes = (P02 || P05) ? 1 + (int)vr_u(&r, 3) : 1;
     vparams P; vp_random(&r, &P, VP_MT | VP_MAGICLESS | (P05 ? VP_SMALLWIN * (int)vr_u(&r, 2) : 0));
     if (P.windowLog > 22) vp_level_only(&P);
+    /* entry point family for this case: mostly compressStream2 / legacy (chosen per frame by the script), 1 case in 4 (C02, C05) one of the
+     * stable-buffer modes, the buffer-less API or ZBUFF */
+    int alt = 0; if ((P02 || P05) && vr_chance(&r, 1, 4)) alt = HA_STABLE_IN + (int)vr_u(&r, HA_NB - HA_STABLE_IN);
+    if (HA_IS_LEVELONLY(alt)) { vp_level_only(&P); if (P.level > 19) P.level = 19; }    /* these take a level (or a ZSTD_parameters), not the context's parameter set */
+    if (HA_IS_STABLE(alt)) { if (alt != HA_STABLE_OUT) vp_add(&P, ZSTD_c_stableInBuffer, 1); if (alt != HA_STABLE_IN) vp_add(&P, ZSTD_c_stableOutBuffer, 1); vp_redesc(&P); }
     if (P.magicless && nframes > 1) { P.magicless = 0; for (int i = 0; i < P.n; i++) if (P.p[i] == ZSTD_c_format) P.v[i] = 0; }
     /* dictionary (C05): raw content, must drop out of reach with small windows */
     size_t dictLen = 0; uint8_t* dict = NULL; int dictMode = 0;
@@ -61,7 +66,7 @@ static void run_case(long idx)
     ZSTD_CCtx* c = ZSTD_createCCtx();
     if (ZSTD_isError(vp_apply(c, &P))) { v_stat("params_rejected", 1); goto out; }
     if (P05 && !P.magicless && vr_chance(&r, 1, 3)) { dictLen = 1 + vr_u(&r, 60000); dict = (uint8_t*)malloc(dictLen); dictMode = 1 + (int)vr_u(&r, 2); }
-    dlen0 = snprintf(desc, sizeof desc, "params=[%s] frames=%d", P.desc, nframes);
+    dlen0 = snprintf(desc, sizeof desc, "entry=%s params=[%s] frames=%d", alt ? ha_name[alt] : "script", P.desc, nframes);
     v_stat("cases", 1);
     for (int f = 0; f < nframes; f++) {
         int const fam = (int)vr_u(&r, DF_NB); size_t n = pick_size(&r, g_maxSize);
@@ -71,9 +76,20 @@ static void run_case(long idx)
         hscript S; h_gen_script(&r, n, &S, P.nbWorkers == 0);
         if (P.nbWorkers && n > 300000) for (int i = 0; i < S.nOut; i++) if (S.outPat[i] < 256) S.outPat[i] += 256;
         hlog L; memset(&L, 0, sizeof L); long tooMany = 0;
-        if (dict) { if (dictMode == 1) ZSTD_CCtx_refPrefix_advanced(c, dict, dictLen, ZSTD_dct_rawContent); else if (f == 0) ZSTD_CCtx_loadDictionary_advanced(c, dict, dictLen, ZSTD_dlm_byRef, ZSTD_dct_rawContent); }
-        int const pledge = (!S.api && vr_chance(&r, 1, 3)); if (pledge) ZSTD_CCtx_setPledgedSrcSize(c, n);
-        size_t const cs = h_run_script(c, x + total, n, &S, dst + ctotal, cap - ctotal, &L, &tooMany);
+        if (dict && !HA_IS_LEVELONLY(alt)) { if (dictMode == 1) ZSTD_CCtx_refPrefix_advanced(c, dict, dictLen, ZSTD_dct_rawContent); else if (f == 0) ZSTD_CCtx_loadDictionary_advanced(c, dict, dictLen, ZSTD_dlm_byRef, ZSTD_dct_rawContent); }
+        int const pledge = (!S.api && vr_chance(&r, 1, 3)); if (pledge && !HA_IS_LEVELONLY(alt)) ZSTD_CCtx_setPledgedSrcSize(c, n);
+        size_t cs; ZSTD_parameters zp; memset(&zp, 0, sizeof zp); int adv = 0;
+        if (alt) S.api = 0;
+        if (!alt) cs = h_run_script(c, x + total, n, &S, dst + ctotal, cap - ctotal, &L, &tooMany);
+        else if (HA_IS_STABLE(alt)) cs = h_run_stable(c, alt, x + total, n, &S, dst + ctotal, cap - ctotal, &tooMany);
+        else if (alt == HA_ZBUFF) cs = h_run_zbuff(P.level, dictMode ? dict : NULL, dictLen, x + total, n, &S, dst + ctotal, cap - ctotal, &tooMany);
+        else { hbl B; memset(&B, 0, sizeof B); B.level = P.level; B.dict = dictMode ? dict : NULL; B.dictLen = dictMode ? dictLen : 0; B.pledge = pledge; adv = B.useAdvanced = (int)vr_u(&r, 2);
+            if (adv) { zp = ZSTD_getParams(P.level, vr_chance(&r, 1, 2) ? n : 0, B.dictLen);
+                if (vr_chance(&r, 1, 2)) { zp.cParams.windowLog = (unsigned)vr_range(&r, 10, 21); zp.cParams.strategy = (ZSTD_strategy)vr_range(&r, 1, 9); zp.cParams.minMatch = (unsigned)vr_range(&r, 3, 7); zp.cParams.searchLog = (unsigned)vr_range(&r, 1, 6);
+                    zp.cParams.hashLog = (unsigned)vr_range(&r, 6, 21); zp.cParams.chainLog = (unsigned)vr_range(&r, 6, 21); zp.cParams.targetLength = (unsigned)vr_u(&r, 200); if (ZSTD_isError(ZSTD_checkCParams(zp.cParams))) zp = ZSTD_getParams(P.level, 0, B.dictLen); }
+                zp.fParams.contentSizeFlag = (int)vr_u(&r, 2); zp.fParams.checksumFlag = (int)vr_u(&r, 2); zp.fParams.noDictIDFlag = (int)vr_u(&r, 2); B.zp = zp; }
+            cs = h_run_bufferless(c, alt, x + total, n, &S, dst + ctotal, cap - ctotal, &B); }
+        if (alt) v_cell("alt_entry", "%s%s|dict%d|mt%d", ha_name[alt], adv ? "+advanced" : "", dictMode, P.nbWorkers > 0);
         snprintf(desc + dlen0, sizeof desc - (size_t)dlen0, " | frame %d: n=%zu fam=%s script{%s} pledged=%d dict=%zu/%d", f, n, v_df_name[fam], S.desc, pledge, dictLen, dictMode);
         if (ZSTD_isError(cs)) {
             if (tooMany) { if (P10) v_viol("progress:too-many-calls-to-finish-a-finite-stream", "%s calls=%ld", desc, tooMany); }
@@ -106,7 +122,7 @@ static void run_case(long idx)
         }
         hl_free(&L);
         total += n; ctotal += cs; fb[nfb].cEnd = ctotal; fb[nfb].dEnd = total; fb[nfb].skippable = 0; nfb++;
-        v_cell("script", "%d|%s|mt%d|%s", S.nseg > 50 ? 2 : S.nseg > 3 ? 1 : 0, S.api ? "legacy" : "s2", P.nbWorkers > 0, S.outPat[0] < 16 ? "tinyout" : S.outPat[0] < 5000 ? "smallout" : "bigout");
+        v_cell("script", "%d|%s|mt%d|%s", S.nseg > 50 ? 2 : S.nseg > 3 ? 1 : 0, alt ? ha_name[alt] : S.api ? "legacy" : "s2", P.nbWorkers > 0, S.outPat[0] < 16 ? "tinyout" : S.outPat[0] < 5000 ? "smallout" : "bigout");
         if ((P02 || P05) && !P.magicless && vr_chance(&r, 1, 4) && nfb < 15) { uint8_t sk[200]; size_t sl = vr_u(&r, 200); vr_fill(&r, sk, sl); size_t w = ZSTD_writeSkippableFrame(dst + ctotal, cap - ctotal, sk, sl, vr_u(&r, 16)); if (!ZSTD_isError(w)) { ctotal += w; fb[nfb].cEnd = ctotal; fb[nfb].dEnd = total; fb[nfb].skippable = 1; nfb++; } }
     }
     /* ---------------- decode-side oracles */
@@ -124,8 +140,10 @@ static void run_case(long idx)
         size_t const one = ZSTD_decompressDCtx(d, out, total, dst, ctotal);
         if (ZSTD_isError(one) || one != total || memcmp(out, x, total)) v_viol("roundtrip:one-shot-decoder", "%s: %s", desc, ZSTD_isError(one) ? ZSTD_getErrorName(one) : "mismatch");
         /* streaming decode under an independent random history */
-        for (int rep = 0; rep < 2; rep++) {
+        ZBUFF_DCtx* zd = NULL;
+        for (int rep = 0; rep < (P.magicless ? 2 : 3); rep++) {
             dscript D; d_gen_script(&r, &D, ctotal); int const stable = (rep == 1) && vr_chance(&r, 1, 2);
+            int const zb = (rep == 2); if (zb) { zd = ZBUFF_createDCtx(); if (!zd) exit(2); ZBUFF_decompressInit(zd); ZSTD_DCtx_setParameter(zd, ZSTD_d_windowLogMax, 30); }
             ZSTD_DCtx_reset(d, ZSTD_reset_session_only); if (stable) ZSTD_DCtx_setParameter(d, ZSTD_d_stableOutBuffer, 1); else ZSTD_DCtx_setParameter(d, ZSTD_d_stableOutBuffer, 0);
             ZSTD_inBuffer in = { dst, 0, 0 }; ZSTD_outBuffer ob = { out, 0, 0 }; size_t ret = 1; int k = 0; long guard = 0; int zeros = 0; int bad = 0; int emptyInCalls = 0;
             size_t offered = 0;   /* absolute end of the input made available so far */
@@ -143,7 +161,8 @@ static void run_case(long idx)
                 in.size = drainOnly ? in.pos : offered;
                 if (stable) ob.size = total; else ob.size = V_MIN(total, ob.pos + outc);
                 size_t const ib = in.pos, obp = ob.pos;
-                ret = ZSTD_decompressStream(d, &ob, &in);
+                if (!zb) ret = ZSTD_decompressStream(d, &ob, &in);
+                else { size_t dcap = ob.size - ob.pos, ssz = in.size - in.pos; ret = ZBUFF_decompressContinue(zd, out + ob.pos, &dcap, dst + in.pos, &ssz); ob.pos += dcap; in.pos += ssz; }
                 if (drainOnly) emptyInCalls++;
                 lastFilledOut = !stable && (ob.pos == ob.size) && ob.size > obp;
                 if (ZSTD_isError(ret)) { v_viol("roundtrip:streaming-decoder-fails-on-valid-stream", "%s stable=%d in=%zu/%zu out=%zu/%zu: %s", desc, stable, in.pos, ctotal, ob.pos, total, ZSTD_getErrorName(ret)); bad = 1; break; }
@@ -161,7 +180,8 @@ static void run_case(long idx)
             if (!bad) { if (memcmp(out, x, total)) v_viol("roundtrip:streaming-decoder-mismatch", "%s stable=%d", desc, stable);
                 int dataFrames = 0; for (int q = 0; q < nfb; q++) if (!fb[q].skippable) dataFrames++;
                 if (zeros < dataFrames) v_viol("history:frame-completion-not-reported-for-every-frame", "%s zeros=%d frames=%d", desc, zeros, dataFrames);
-                v_stat("decode_histories", 1); v_stat("drain_only_calls", emptyInCalls); v_cell("dhist", "in%s|out%s|stable%d", D.inChunk[0] < 8 ? "tiny" : D.inChunk[0] < 6000 ? "small" : "big", D.outChunk[0] < 8 ? "tiny" : D.outChunk[0] < 6000 ? "small" : "big", stable); }
+                v_stat("decode_histories", 1); v_stat("drain_only_calls", emptyInCalls); v_cell("dhist", "in%s|out%s|%s", D.inChunk[0] < 8 ? "tiny" : D.inChunk[0] < 6000 ? "small" : "big", D.outChunk[0] < 8 ? "tiny" : D.outChunk[0] < 6000 ? "small" : "big", zb ? "ZBUFF" : stable ? "stable-out" : "buffered"); }
+            if (zb) { ZBUFF_freeDCtx(zd); zd = NULL; }
         }
         /* buffer-less decoding driven by ZSTD_nextSrcSizeToDecompress (single data frame, no skippable, standard format) */
         if (nfb == 1 && !P.magicless) {
@@ -171,6 +191,21 @@ static void run_case(long idx)
                 size_t const rr = ZSTD_decompressContinue(d, out + op, total - op, dst + ip, need); if (ZSTD_isError(rr)) { v_viol("bufferless:decompressContinue-fails", "%s: %s", desc, ZSTD_getErrorName(rr)); ok = 0; break; } ip += need; op += rr; if (++guard > 10000000) { ok = 0; break; } }
             if (ok && (ip != ctotal || op != total || memcmp(out, x, total))) v_viol("bufferless:mismatch", "%s consumed %zu/%zu produced %zu/%zu", desc, ip, ctotal, op, total);
             v_stat("bufferless_decodes", 1);
+        }
+        /* block-level API: Begin + compressBlock per block (<= ZSTD_getBlockSize), 0 = "store it yourself"; decoder side decompressBlock / insertBlock */
+        if (total && vr_chance(&r, 1, 4)) {
+            ZSTD_CCtx* bc = ZSTD_createCCtx(); int const lvl = (int)vr_range(&r, -5, 19); size_t pos = 0; int ok = 1; long nb = 0, stored = 0;
+            size_t e = vr_chance(&r, 1, 2) ? ZSTD_compressBegin(bc, lvl) : ZSTD_compressBegin_usingDict(bc, x, 0, lvl); ZSTD_DCtx_reset(d, ZSTD_reset_session_and_parameters); ZSTD_decompressBegin(d);
+            size_t const bs = ZSTD_isError(e) ? 0 : ZSTD_getBlockSize(bc); uint8_t* cb = (uint8_t*)malloc(ZSTD_compressBound(bs ? bs : 1) + 64); memset(out, 0, total);
+            if (ZSTD_isError(e) || bs == 0 || bs > (128u << 10)) { v_viol("blockapi:begin-or-blocksize", "%s level=%d bs=%zu %s", desc, lvl, bs, ZSTD_isError(e) ? ZSTD_getErrorName(e) : ""); ok = 0; }
+            while (ok && pos < total) { size_t len = vr_chance(&r, 1, 3) ? bs : 1 + vr_u64(&r, bs); if (len > total - pos) len = total - pos;
+                size_t const cs = ZSTD_compressBlock(bc, cb, ZSTD_compressBound(len), x + pos, len);
+                if (ZSTD_isError(cs)) { v_viol("blockapi:compressBlock-fails", "%s level=%d at %zu len=%zu: %s", desc, lvl, pos, len, ZSTD_getErrorName(cs)); ok = 0; break; }
+                if (cs == 0) { memcpy(out + pos, x + pos, len); ZSTD_insertBlock(d, out + pos, len); stored++; }
+                else { size_t const ds = ZSTD_decompressBlock(d, out + pos, total - pos, cb, cs); if (ZSTD_isError(ds) || ds != len) { v_viol("blockapi:decompressBlock-fails-or-wrong-size", "%s level=%d at %zu len=%zu: %s", desc, lvl, pos, len, ZSTD_isError(ds) ? ZSTD_getErrorName(ds) : "size"); ok = 0; break; } }
+                pos += len; nb++; }
+            if (ok && memcmp(out, x, total)) v_viol("blockapi:mismatch", "%s level=%d", desc, lvl);
+            v_stat("blockapi_blocks", nb); v_stat("blockapi_blocks_stored", stored); free(cb); ZSTD_freeCCtx(bc);
         }
         ZSTD_freeDCtx(d); free(out);
     }
